@@ -6,7 +6,9 @@ from ..callgraph import CallGraph
 
 MODEL_CLASSES = ('ProcessStartCommandModel', 'ApplicationStartJobsModel', 'StarterModel')
 SINK_CLASSES = {'RpcHandler', 'SupervisorProxyServer', 'SupervisorProxy', 'SupervisorProxyThread', 'MulticastSender',
-                'EventPublisherInterface'}
+                'EventPublisherInterface', 'SupervisorData', 'SupervisorUpdater'}
+RESYNTH = {'update_status', 'update_info', 'add_info', 'invalidate_identifier', 'remove_identifier', 'reset_forced_state',
+           'update_times', 'update_disability', 'update_uptime'}
 SINK_UNITS = {'SupervisorListener.force_process_state', 'SupvisorsStateModes.publish_status',
               'SupvisorsStateModes.export_status', 'Context.export_status', 'Context.publish_process_failures'}
 LIVE_COMMANDERS = {'Starter', 'Stopper', 'RunningFailureHandler'}
@@ -197,6 +199,48 @@ def run(P, R):
                     R.fail(r2, 'live-store|%s|%s' % (u.qual, t[1].name), u.loc(n),
                            '%s writes through a live %s object (%s)' % (u.qual, t[1].name, ast.unparse(tgt)[:80]))
     R.require(n_stores >= 1, 'no store through a ProcessStatus field found in the model classes (feed_model changed?)')
+    # the mock is a FAITHFUL copy: every per-instance payload, the state, the same rules object
+    ia = [a for a in own_nodes(alloc.node) if isinstance(a, ast.Assign) and ast.unparse(a.targets[0]) == mock + '.info_map']
+    ok = len(ia) == 1 and (
+        (isinstance(ia[0].value, ast.DictComp) and not any(g.ifs for g in ia[0].value.generators) and
+         ast.unparse(ia[0].value.generators[0].iter) == '%s.info_map.items()' % live_param and
+         ast.unparse(ia[0].value.key) == ast.unparse(ia[0].value.generators[0].target.elts[0]))
+        or ast.unparse(ia[0].value) in ('copy.deepcopy(%s.info_map)' % live_param, '%s.info_map.copy()' % live_param))
+    R.check(r2, ok, 'the mock holds a copy of EVERY per-instance payload of the live process', 'faithful|info_map',
+            alloc.loc(), 'ProcessStartCommandModel.__init__ does not copy all entries of info_map (filtered or re-keyed '
+            'copy): the prediction decides on other inputs than the real start')
+    mk = [c for c in own_nodes(alloc.node) if isinstance(c, ast.Call) and call_text(c) == 'ProcessStatus']
+    ok = len(mk) == 1 and [ast.unparse(a) for a in mk[0].args] == ['%s.application_name' % live_param,
+                                                                   '%s.process_name' % live_param,
+                                                                   '%s.rules' % live_param, '%s.supvisors' % live_param]
+    R.check(r2, ok, 'the mock shares name and rules with the live process', 'faithful|constructor', alloc.loc(),
+            'ProcessStartCommandModel.__init__ builds the mock with %s' % [ast.unparse(a) for c in mk for a in c.args])
+    sc = [a for a in own_nodes(alloc.node) if isinstance(a, ast.Assign) and ast.unparse(a.targets[0]) == mock + '._state']
+    R.check(r2, len(sc) == 1 and ast.unparse(sc[0].value) == '%s._state' % live_param, 'the mock starts from the live state',
+            'faithful|state', alloc.loc(), 'ProcessStartCommandModel.__init__ does not copy _state')
+    # inherited Starter code running in the model context must not write through the LIVE objects it is given
+    for (ctx, u) in seen:
+        if ctx is not SM or u.cls is None or u.cls.name in MODEL_CLASSES or u.cls not in P.mro(P.cls('Starter')):
+            continue
+        env = P.env(u, ctx)
+        params = {a.arg for a in u.node.args.args[1:]}
+        for n in own_nodes(u.node):
+            if isinstance(n, ast.Attribute) and isinstance(n.ctx, ast.Store) and isinstance(n.value, ast.Name) \
+                    and n.value.id in params:
+                t = env.typeof(n.value)
+                if t and t[0] == 'inst' and t[1].name in ('ProcessStatus', 'ApplicationStatus'):
+                    R.fail(r2, 'live-param-store|%s|%s' % (u.qual, n.attr), u.loc(n),
+                           '%s (run by a prediction) assigns `%s.%s`: `%s` is the LIVE %s handed to the entry point, '
+                           'not a mock' % (u.qual, n.value.id, n.attr, n.value.id, t[1].name))
+    for cname in MODEL_CLASSES:
+        for u in P.cls(cname).methods.values():
+            for c in own_nodes(u.node):
+                if isinstance(c, ast.Call) and isinstance(c.func, ast.Attribute) and c.func.attr in RESYNTH:
+                    t = P.env(u, u.cls).typeof(c.func.value)
+                    if t and t[0] == 'inst' and t[1] is PS:
+                        R.fail(r2, 'resynth|%s|%s' % (u.qual, c.func.attr), u.loc(c),
+                               '%s calls ProcessStatus.%s on a mock: the status synthesis rewrites running_identifiers, '
+                               'which the model uses as the record of the predicted placement' % (u.qual, c.func.attr))
     # mutators of live classes reachable from a prediction
     allowed = set()
     for q in IDEMPOTENT_ROOTS:
